@@ -18,7 +18,10 @@ func (ft *FT) methodCall(c *ast.CallExpr, f *ast.SelectorExpr) []Val {
 		return ft.unknownCall(args)
 	}
 	target := func() RootSet {
-		if xt.isPtr() {
+		if xt.isPtr() || !xt.isObjectValue() {
+			if v.Pts == nil {
+				return RootSet{}
+			}
 			return v.Pts
 		}
 		return ft.addr(f.X)
@@ -53,7 +56,7 @@ func (ft *FT) methodCall(c *ast.CallExpr, f *ast.SelectorExpr) []Val {
 	if ptrRecv {
 		ra = target()
 	} else if xt.isPtr() {
-		ft.read(v.Pts)
+		ft.readVal(v)
 		ra = ft.load(v.Pts, "*")
 	} else {
 		ra = v.Pts
@@ -71,6 +74,7 @@ func (ft *FT) repoCall(c *ast.CallExpr, pk, fname string, recv *Val, args []Val)
 		return ft.unknownCall(all)
 	}
 	sets := make([]RootSet, callee.NParams)
+	lost := make([]bool, callee.NParams)
 	for i := range sets {
 		sets[i] = RootSet{}
 	}
@@ -88,6 +92,9 @@ func (ft *FT) repoCall(c *ast.CallExpr, pk, fname string, recv *Val, args []Val)
 		}
 		if callee.ParamRef[j] {
 			sets[j].addAll(ft.closure(pts))
+			if lostRef(a) {
+				lost[j] = true // fail closed: reference with unknown target
+			}
 		}
 	}
 	subst := func(s RootSet) RootSet {
@@ -116,6 +123,9 @@ func (ft *FT) repoCall(c *ast.CallExpr, pk, fname string, recv *Val, args []Val)
 	argLists := make([][]Root, len(sets))
 	for i, s := range sets {
 		argLists[i] = s.list()
+		if lost[i] {
+			argLists[i] = append(argLists[i], Root{Kind: KUnknown})
+		}
 	}
 	ft.emit(Instr{Op: "call", Fn: callee.Name, Args: argLists, K: k, Hint: ft.hints[k].list()})
 	res := rsub.copy()
